@@ -9,7 +9,7 @@ import time
 
 MODES = [
     ("sim", "hist", "free", 1500), ("sim", "hist", "twin", 600), ("sim", "hist", "limit", 120),
-    ("sim", "hist", "faultenum", 300), ("sim", "hist", "limitfault", 6),
+    ("sim", "hist", "faultenum", 300), ("sim", "hist", "limitfault", 6), ("sim", "hist", "soak", 60),
     ("sim", "xfer", "any", 1500), ("sim", "xfer", "valid", 800), ("sim", "xfer", "mpprefix", 300),
     ("sim", "xfer", "jsonprefix", 300), ("sim", "xfer", "mpcorrupt", 60), ("sim", "xfer", "token", 800),
     ("sim", "xfer", "dialect", 800), ("sim", "xfer", "deep", 600), ("sim", "xfer", "hostile", 600),
